@@ -23,6 +23,7 @@ LEVEL_TEXT += (' (E3.kind) set literals / comprehensions build only set values a
 LEVEL_TEXT += (' (E3.all) element loops of both interpreters reach the successful return only through the exhausted iterator (`if` excepted).')
 LEVEL_TEXT += (' The attribute loops of `attr` statements and shorthands hand every attribute to Attribute::execute / execute_lazy in both modes.')
 LEVEL_TEXT += (' (C16.L) local add/set in both interpreters is dominated by the guard rejecting names of globals.')
+LEVEL_TEXT += (' (E5.key) no table keyed by rendered text; (E6.v) only the evaluator looks inside a deferred value; scan F0: the scanned string is evaluate(value)?.into_string()? in both modes.')
 def _report(rep, rule, f, feats, problems, ids):
     seen = set()
     for fid, msg in problems:
@@ -57,7 +58,7 @@ def siblings(prog, rep):
             continue
         fe, pr = e3.scan_features(prog, f)
         fs[mode] = fe
-        _report(rep, "E3.s", f, fe, pr, ("F1", "F2", "F3", "F4", "F5", "F6", "F7"))
+        _report(rep, "E3.s", f, fe, pr, ("F0", "F1", "F2", "F3", "F4", "F5", "F6", "F7"))
         n += 1
     if len(fs) == 2:
         _agree(rep, "E3.s", "scan", fs["strict"], fs["lazy"])
@@ -213,6 +214,11 @@ def run(prog, rep):
     regex_capture_lookup(prog, rep)
     from ..engines import e5_writers as e5
     e5.mutability_flags(prog, rep)
+    # lazy-only state that can merge distinct values: no table keyed by rendered text; nobody but the evaluator looks inside a deferred value
+    e5.no_text_keyed_tables(prog, rep)
+    from ..engines import e2_errflow as e2x
+    nv = e2x.lazy_value_encapsulated(prog, rep)
+    rep.floor("E6.v", nv, 2, "readers of LazyValue's variant")
     from ..engines import e3_driver
     from ..lib.report import Filtered
     nb0 = len(rep.items)
